@@ -162,6 +162,41 @@ def mergeNames (ds od : Dict) : Mach → List String → Mach × Option PyErr
           | (m', none) => mergeNames ds od m' rest
           | (m', some e) => (m', some e)
 
+/-- the validation pass of `merge_all_results`: `_assert_can_merge` for the last results of every
+    name of `self` (nothing is changed) -/
+def checkNames (ds od : Dict) (m : Mach) : List String → Option PyErr
+  | [] => none
+  | nm :: rest =>
+    if nm = nsr then checkNames ds od m rest
+    else match lastOf m ds nm with
+      | .error e => some e
+      | .ok a => match lastOf m od nm with
+        | .error e => some e
+        | .ok b => match m.res[a]?, m.res[b]? with
+          | some ra, some rb => match mergeGuard ra rb with
+            | some e => some e
+            | none => checkNames ds od m rest
+          | _, _ => some .AttributeError
+
+/-- … and for `'num_skipped_reps'` (against a new SUM result when `self` has none yet) -/
+def checkNsr (m : Mach) (s o : Nat) : Option PyErr :=
+  if (dictGet? (dictOf m o) nsr).isNone then none
+  else
+    let target : Except PyErr Res :=
+      if (dictGet? (dictOf m s) nsr).isNone then .ok (fresh nsr .sum false 0)
+      else match lastOf m (dictOf m s) nsr with
+        | .error e => .error e
+        | .ok a => match m.res[a]? with
+          | some r => .ok r
+          | none => .error .AttributeError
+    match target with
+    | .error e => some e
+    | .ok ra => match lastOf m (dictOf m o) nsr with
+      | .error e => some e
+      | .ok b => match m.res[b]? with
+        | none => some .AttributeError
+        | some rb => mergeGuard ra rb
+
 /-- `add_new_result(name, SUMTYPE, 0)` = `add_result(Result.create(name, SUMTYPE, 0, 0))`:
     the new object has already received one `update(0)` -/
 def addNewSumZero (m : Mach) (s : Nat) (name : String) : Mach × Option PyErr :=
@@ -200,17 +235,22 @@ def copyDict (s : Nat) : Mach → List (String × Nat) → Mach
     let (m2, l') := allocList m1 cs
     copyDict s (setDict m2 s (dictSet (dictOf m2 s) nm l')) rest
 
-/-- `SimulationResults.merge_all_results` (current, repaired source) -/
+/-- `SimulationResults.merge_all_results` (current, repaired source): copy into an empty `self`;
+    otherwise validate everything first, then merge -/
 def mergeAll (m : Mach) (s o : Nat) : Mach × Option PyErr :=
   if s < m.sims.length ∧ o < m.sims.length then
     if dictOf m s = [] then (copyDict s m (dictOf m o), none)
-    else match mergeNames (dictOf m s) (dictOf m o) m ((dictOf m s).map (·.1)) with
-      | (m1, some e) => (m1, some e)
-      | (m1, none) => mergeNsr m1 s o
+    else match checkNames (dictOf m s) (dictOf m o) m ((dictOf m s).map (·.1)) with
+      | some e => (m, some e)
+      | none => match checkNsr m s o with
+        | some e => (m, some e)
+        | none => match mergeNames (dictOf m s) (dictOf m o) m ((dictOf m s).map (·.1)) with
+          | (m1, some e) => (m1, some e)
+          | (m1, none) => mergeNsr m1 s o
   else (m, some .AttributeError)
 
-/-- the code before the repair: the empty-`self` branch stores the operand's
-    own list objects, `self._results[name] = other[name]` -/
+/-- the code before the repairs: the empty-`self` branch stores the operand's
+    own list objects, `self._results[name] = other[name]`, and nothing is validated first -/
 def mergeAllOld (m : Mach) (s o : Nat) : Mach × Option PyErr :=
   if s < m.sims.length ∧ o < m.sims.length then
     if dictOf m s = [] then
